@@ -41,13 +41,16 @@ def reader_run(frames, emit):
         shutil.rmtree(wd, ignore_errors=True)
 
 
-def replay_path(mode, frames, path):
+RTYPES = [None, 'bytearray', 'memoryview', 'array']     # container types a transport may hand out (bytes, bytearray, a view of a reused buffer, array('B'))
+
+
+def replay_path(mode, frames, path, rtype=None):
     """Impose the path's read results; returns (requests made by the library, requests of the model, outcome, over-reads)."""
     ks = [e['act']['k'] for e in path]
     ns = [e['act']['n'] for e in path]
     dev = simdev.SimDevice(auth=simdev.AuthPolicy(maxdata=4096, banner=b'device::abcde\0'))
     dev.shell_scripts[b'shell:x'] = [b'P' * 21]
-    sess = env.Session(mode, dev, log_io=True)
+    sess = env.Session(mode, dev, log_io=True, rtype=rtype)
     core = sess.core
     state = {'i': 0}
 
@@ -93,8 +96,8 @@ def body(ctx):
         paths = g.tour()
         mism = 0
         for mode in ('sync', 'async'):
-            for p in paths:
-                reqs, ns, outcome, o2 = replay_path(mode, frames, p)
+            for pi_, p in enumerate(paths):
+                reqs, ns, outcome, o2 = replay_path(mode, frames, p, rtype=RTYPES[(pi_ + (mode == 'async')) % len(RTYPES)])
                 want_out = 'ok' if all(b == 'no' for _, b in frames) else ('InvalidChecksumError' if any(b == 'sum' for _, b in frames) else 'InvalidCommandError')
                 tr = [dict(ev='br', n=n, left=left) for (n, left, k, flen) in reqs]
                 if want_out == 'InvalidChecksumError':
@@ -119,8 +122,9 @@ def body(ctx):
         spec = scen.gen_session(rng, j, big=(j % 9 == 0), adversarial=False)
         spec['frag'] = rng.choice(['random', 'bytes1', 'empty']) if j % 9 else 'random'
         mode = ('sync', 'async')[j % 2]
+        spec['rtype'] = RTYPES[(j // 2) % len(RTYPES)]
         rr = scen.run(spec, mode, log_io=True)
-        s0 = dict(spec, frag='whole')
+        s0 = dict(spec, frag='whole', rtype=None)
         r0 = scen.run(s0, mode)
         same = [o.key() if o.kind == 'exc' else ('ret', repr(o.value)) for o in rr.outcomes] == [o.key() if o.kind == 'exc' else ('ret', repr(o.value)) for o in r0.outcomes] \
             and [e['_raw'] for e in rr.events if e['ev'] == 'tx'] == [e['_raw'] for e in r0.events if e['ev'] == 'tx'] \
@@ -159,6 +163,9 @@ def body(ctx):
             words.add(w ^ (1 << b))
     while len(words) < (400 if ctx.quick else 2224):
         words.add(rng.randrange(2 ** 32))
+    # words of the wider protocol family that this library does not implement: newer adbd commands and the FileSync ids
+    for w4 in (b'STLS', b'DATA', b'DONE', b'FAIL', b'DENT', b'STAT', b'RECV', b'SEND', b'LIST', b'QUIT', b'STA2', b'LIS2', b'DNT2', b'LST2', b'SND2', b'RCV2'):
+        words.add(int.from_bytes(w4, 'little'))
     words -= set(wire.CMD_WORD.values())
     for k, w in enumerate(sorted(words)):
         mode = ('sync', 'async')[k % 2]
